@@ -8,14 +8,40 @@ use ast_grep_core::Language;
 use ast_grep_language::SupportLang;
 use serde_json::{json, Value};
 
-fn ids_text(ids: &Value) -> Option<String> {
+/// how an abstract layout is written down; the layout (and therefore the verdict) is the same for every skin
+#[derive(Clone, Copy)]
+pub struct Skin {
+  pub id: usize,
+  pub python: bool, // `#` comments, Python rules
+  pub block: bool,  // /* ... */ comments
+  pub wrap: bool,   // everything inside `function f() {` ... `}`, indented: the comments and calls are nested
+  pub crlf: bool,
+  pub idfmt: usize, // 0 "a, b"  1 "a,b"  2 " a ,  b "
+}
+
+pub const SKINS: [Skin; 6] = [
+  Skin { id: 0, python: false, block: false, wrap: false, crlf: false, idfmt: 0 },
+  Skin { id: 1, python: false, block: true, wrap: false, crlf: false, idfmt: 1 },
+  Skin { id: 2, python: false, block: false, wrap: true, crlf: false, idfmt: 2 },
+  Skin { id: 3, python: false, block: false, wrap: false, crlf: true, idfmt: 0 },
+  Skin { id: 4, python: true, block: false, wrap: false, crlf: false, idfmt: 1 },
+  Skin { id: 5, python: false, block: true, wrap: true, crlf: true, idfmt: 2 },
+];
+
+fn ids_text(ids: &Value, skin: &Skin) -> Option<String> {
   let v: Vec<&str> = ids.as_array().unwrap().iter().map(|x| x.as_str().unwrap()).collect();
+  let (open, close) = if skin.python { ("# ", "") } else if skin.block { ("/* ", " */") } else { ("// ", "") };
   if v == ["-"] {
     None
   } else if v == ["*"] {
-    Some("// ast-grep-ignore".to_string())
+    Some(format!("{open}ast-grep-ignore{close}"))
   } else {
-    Some(format!("// ast-grep-ignore: {}", v.join(", ")))
+    let list = match skin.idfmt {
+      0 => v.join(", "),
+      1 => v.join(","),
+      _ => format!(" {}", v.join(" ,  ")),
+    };
+    Some(format!("{open}ast-grep-ignore:{}{list}{close}", if skin.idfmt == 1 { "" } else { " " }))
   }
 }
 
@@ -29,48 +55,58 @@ fn stmt_text(rules: &Value) -> &'static str {
   }
 }
 
-pub fn render(layout: &Value) -> String {
+/// the text and the number of lines put before the layout's first line
+pub fn render(layout: &Value, skin: &Skin) -> (String, usize) {
   let mut out = String::new();
+  let ind = if skin.wrap { "  " } else { "" };
+  if skin.wrap {
+    out.push_str("function f() {\n");
+  }
   for line in layout.as_array().unwrap() {
+    out.push_str(ind);
     if line["kind"] == "comment" {
-      out.push_str(&ids_text(&line["ids"]).unwrap());
+      out.push_str(&ids_text(&line["ids"], skin).unwrap());
     } else {
       let stmts: Vec<&str> = line["stmts"].as_array().unwrap().iter().map(stmt_text).collect();
       out.push_str(&stmts.join(" "));
-      if let Some(c) = ids_text(&line["trail"]) {
+      if let Some(c) = ids_text(&line["trail"], skin) {
         out.push(' ');
         out.push_str(&c);
       }
     }
     out.push('\n');
   }
-  out
+  if skin.wrap {
+    out.push_str("}\n");
+  }
+  let out = if skin.crlf { out.replace('\n', "\r\n") } else { out };
+  (out, if skin.wrap { 1 } else { 0 })
 }
 
-fn rules_json() -> Vec<Value> {
+fn rules_json(lang: &str) -> Vec<Value> {
   vec![
-    json!({"id": "r1", "language": "JavaScript", "severity": "warning", "message": "m1",
+    json!({"id": "r1", "language": lang, "severity": "warning", "message": "m1",
            "rule": {"any": [{"pattern": "a1($$$)"}, {"pattern": "b($$$)"}]}}),
-    json!({"id": "r2", "language": "JavaScript", "severity": "warning", "message": "m2",
+    json!({"id": "r2", "language": lang, "severity": "warning", "message": "m2",
            "rule": {"any": [{"pattern": "a2($$$)"}, {"pattern": "b($$$)"}]}}),
   ]
 }
 
 /// (line 1-based, k = index of the call on its line, rule) for findings; comment lines for unused
-fn classify(src: &str, hits: &[(String, usize, usize)]) -> (Vec<Value>, Vec<usize>) {
+fn classify(src: &str, hits: &[(String, usize, usize)], off: usize) -> (Vec<Value>, Vec<usize>) {
   let lines: Vec<&str> = src.lines().collect();
   let mut findings = vec![];
   let mut unused = vec![];
   for (rule, line0, col) in hits {
     if rule == "unused-suppression" {
-      unused.push(line0 + 1);
+      unused.push(line0 + 1 - off);
       continue;
     }
     let text = lines.get(*line0).copied().unwrap_or("");
     // statements are separated by "; " - count the calls that start before this column
     let before: String = text.chars().take(*col).collect();
     let k = before.matches(';').count() + 1;
-    findings.push(json!({"line": line0 + 1, "k": k, "rule": rule}));
+    findings.push(json!({"line": line0 + 1 - off, "k": k, "rule": rule}));
   }
   unused.sort();
   (findings, unused)
@@ -80,55 +116,64 @@ pub fn drive(vectors: &str, out: &str, thorough: bool) {
   std::panic::set_hook(Box::new(|_| {}));
   let layouts = util::read_ndjson(vectors);
   let globals = GlobalRules::default();
-  let yaml = rules_json().iter().map(|r| serde_json::to_string(r).unwrap()).collect::<Vec<_>>().join("\n---\n");
-  let cfgs = from_yaml_string::<SupportLang>(&yaml, &globals).expect("rules load");
-  let unused_cfg = CombinedScan::unused_config(Severity::Hint, SupportLang::JavaScript);
+  let mk = |lang: &str| {
+    let yaml = rules_json(lang).iter().map(|r| serde_json::to_string(r).unwrap()).collect::<Vec<_>>().join("\n---\n");
+    from_yaml_string::<SupportLang>(&yaml, &globals).expect("rules load")
+  };
+  let (cfgs_js, cfgs_py) = (mk("JavaScript"), mk("Python"));
   let scratch = format!("/var/tmp/agv-c14-{}", std::process::id());
   // CLI runs are the expensive part: every layout in thorough, a stride in quick
   let stride = if thorough { 1 } else { (layouts.len() / 400).max(1) };
   let results = cli::par_map(&layouts, 12, |i, layout| {
-    let src = render(layout);
-    let g = SupportLang::JavaScript.ast_grep(&src);
+    // every layout in its plain form; one more skin per layout in turn (all of them in thorough)
+    let skins: Vec<Skin> = if thorough { SKINS.to_vec() } else if i % 6 == 0 { vec![SKINS[0]] } else { vec![SKINS[0], SKINS[i % 6]] };
     let mut recs = vec![];
-    for separate_fix in [false, true] {
-      let mut scan = CombinedScan::new(cfgs.iter().collect());
-      scan.set_unused_suppression_rule(&unused_cfg);
-      let r = std::panic::catch_unwind(std::panic::AssertUnwindSafe(|| {
-        let res = scan.scan(&g, separate_fix);
-        let mut hits = vec![];
-        for (rule, ms) in &res.matches {
-          for m in ms {
+    for skin in &skins {
+      let (src, off) = render(layout, skin);
+      let lang = if skin.python { SupportLang::Python } else { SupportLang::JavaScript };
+      let cfgs = if skin.python { &cfgs_py } else { &cfgs_js };
+      let unused_cfg = CombinedScan::unused_config(Severity::Hint, lang);
+      let g = lang.ast_grep(&src);
+      for separate_fix in [false, true] {
+        let mut scan = CombinedScan::new(cfgs.iter().collect());
+        scan.set_unused_suppression_rule(&unused_cfg);
+        let r = std::panic::catch_unwind(std::panic::AssertUnwindSafe(|| {
+          let res = scan.scan(&g, separate_fix);
+          let mut hits = vec![];
+          for (rule, ms) in &res.matches {
+            for m in ms {
+              hits.push((rule.id.clone(), m.start_pos().line(), m.start_pos().column(m.get_node())));
+            }
+          }
+          for (rule, m) in &res.diffs {
             hits.push((rule.id.clone(), m.start_pos().line(), m.start_pos().column(m.get_node())));
           }
-        }
-        for (rule, m) in &res.diffs {
-          hits.push((rule.id.clone(), m.start_pos().line(), m.start_pos().column(m.get_node())));
-        }
-        hits
-      }));
-      let Ok(hits) = r else { continue };
-      let (findings, unused) = classify(&src, &hits);
-      recs.push(json!({"id": format!("c14v{i}"), "front": if separate_fix { "lib-separate-fix" } else { "lib" }, "layout": layout, "src": src,
-        "findings": findings, "unused": unused}));
-    }
-    if i % stride == 0 {
-      let p = Project::new(&format!("{scratch}/p{i}"));
-      p.config(None);
-      for r in rules_json() {
-        p.rule(&format!("{}.yml", r["id"].as_str().unwrap()), &r);
+          hits
+        }));
+        let Ok(hits) = r else { continue };
+        let (findings, unused) = classify(&src, &hits, off);
+        recs.push(json!({"id": format!("c14v{i}s{}", skin.id), "front": if separate_fix { "lib-separate-fix" } else { "lib" }, "layout": layout, "src": src,
+          "skin": skin.id, "findings": findings, "unused": unused}));
       }
-      p.write("src/t.js", src.as_bytes());
-      let o = run_sgv(&["scan", "--json=stream"], &p.root, None, 20, &[]);
-      let hits: Vec<(String, usize, usize)> = json_lines(&o.stdout)
-        .iter()
-        .map(|v| {
-          (v["ruleId"].as_str().unwrap_or("").to_string(), v["range"]["start"]["line"].as_u64().unwrap_or(0) as usize,
-           v["range"]["start"]["column"].as_u64().unwrap_or(0) as usize)
-        })
-        .collect();
-      let (findings, unused) = classify(&src, &hits);
-      recs.push(json!({"id": format!("c14v{i}"), "front": "cli", "layout": layout, "src": src, "findings": findings, "unused": unused, "code": o.code}));
-      p.remove();
+      if i % stride == 0 {
+        let p = Project::new(&format!("{scratch}/p{i}s{}", skin.id));
+        p.config(None);
+        for r in rules_json(if skin.python { "Python" } else { "JavaScript" }) {
+          p.rule(&format!("{}.yml", r["id"].as_str().unwrap()), &r);
+        }
+        p.write(if skin.python { "src/t.py" } else { "src/t.js" }, src.as_bytes());
+        let o = run_sgv(&["scan", "--json=stream"], &p.root, None, 20, &[]);
+        let hits: Vec<(String, usize, usize)> = json_lines(&o.stdout)
+          .iter()
+          .map(|v| {
+            (v["ruleId"].as_str().unwrap_or("").to_string(), v["range"]["start"]["line"].as_u64().unwrap_or(0) as usize,
+             v["range"]["start"]["column"].as_u64().unwrap_or(0) as usize)
+          })
+          .collect();
+        let (findings, unused) = classify(&src, &hits, off);
+        recs.push(json!({"id": format!("c14v{i}s{}", skin.id), "front": "cli", "layout": layout, "src": src, "skin": skin.id, "findings": findings, "unused": unused, "code": o.code}));
+        p.remove();
+      }
     }
     recs
   });
